@@ -55,10 +55,15 @@ func NewMemProvider() *MemTopics {
 	}
 }
 
-// checkSys rejects topics beginning with '$' (system topics, MQTT 3.1.1 section
-// 4.7.2). A '$' anywhere else in a topic is an ordinary character.
-func checkSys(topic []byte) error {
-	if len(topic) > 0 && topic[0] == '$' {
+// checkTopic rejects the empty topic (topic names and topic filters must be at
+// least one character long, MQTT 3.1.1 section 4.7.3) and topics beginning with
+// '$' (system topics, section 4.7.2). A '$' anywhere else in a topic is an
+// ordinary character.
+func checkTopic(topic []byte) error {
+	if len(topic) == 0 {
+		return fmt.Errorf("memtopics/checkTopic: Topic must be at least one character long")
+	}
+	if topic[0] == '$' {
 		return fmt.Errorf("memtopics/nextTopicLevel: Cannot publish to $ topics")
 	}
 	return nil
@@ -81,7 +86,7 @@ func (mt *MemTopics) Subscribe(topic []byte, qos byte, sub interface{}) (byte, e
 		qos = MaxQosAllowed
 	}
 
-	if err := checkSys(topic); err != nil {
+	if err := checkTopic(topic); err != nil {
 		return message.QosFailure, err
 	}
 
@@ -97,7 +102,7 @@ func (mt *MemTopics) Unsubscribe(topic []byte, sub interface{}) error {
 	mt.smu.Lock()
 	defer mt.smu.Unlock()
 
-	if err := checkSys(topic); err != nil {
+	if err := checkTopic(topic); err != nil {
 		return err
 	}
 
@@ -116,7 +121,7 @@ func (mt *MemTopics) Subscribers(topic []byte, qos byte, subs *[]interface{}, qo
 	*subs = (*subs)[0:0]
 	*qoss = (*qoss)[0:0]
 
-	if err := checkSys(topic); err != nil {
+	if err := checkTopic(topic); err != nil {
 		return err
 	}
 
@@ -128,7 +133,7 @@ func (mt *MemTopics) Retain(msg *message.PublishMessage) error {
 	mt.rmu.Lock()
 	defer mt.rmu.Unlock()
 
-	if err := checkSys(msg.Topic()); err != nil {
+	if err := checkTopic(msg.Topic()); err != nil {
 		return err
 	}
 
@@ -148,7 +153,7 @@ func (mt *MemTopics) Retained(topic []byte, msgs *[]*message.PublishMessage) err
 	mt.rmu.RLock()
 	defer mt.rmu.RUnlock()
 
-	if err := checkSys(topic); err != nil {
+	if err := checkTopic(topic); err != nil {
 		return err
 	}
 
